@@ -160,6 +160,19 @@ def run(ctx):
 
   eos(ctx, 'C03.eos')
   normal_form(ctx)
+  # membership of a token text in a *string* constant is a substring test: '' (the text of a synthesised NEWLINE/ENDMARKER token) is in every string
+  n_in = 0
+  for m in ctx.cls(CP).methods.values():
+    for cmpn in walk_local(m.node):
+      if isinstance(cmpn, ast.Compare) and len(cmpn.ops) == 1 and isinstance(cmpn.ops[0], (ast.In, ast.NotIn)) and 'string' in u(cmpn.left):
+        n_in += 1
+        r = cmpn.comparators[0]
+        bad = isinstance(r, ast.Constant) and isinstance(r.value, str) and len(r.value) > 1 and not (m.name == '_advance_one_token')
+        ctx.check(not bad, 'C03.selector-guard', construct(m), 'token text `%s` is tested against a tuple/list of alternatives' % u(cmpn)[:60],
+                  'token text is tested with `%s`, a *substring* test on a string constant: the empty text of the NEWLINE/ENDMARKER token the tokenizer '
+                  'synthesises at the end of a text without trailing newline also matches, so the scanner swallows the statement terminator' % u(cmpn),
+                  m.loc(cmpn), instance='membership:' + u(cmpn)[:50])
+  ctx.expect_at_least('token-text membership tests in the parser', n_in, 2)
   instance_state(ctx, 'C03.queue', CP, {'_token_generator', '_filename', '_current_token', '_delegate', '_within_block', '_statements_queue'},
                  'parser state beyond the token cursor, the block flag and the statement queue changes how a layout is read')
 
